@@ -38,6 +38,10 @@ pub struct OsslState {
     // lengths of the inputs handed to acme_common::b64_encode when it is cut (harness observability)
     pub b64_in_len: [usize; 4],
     pub b64_calls: usize,
+    // JSON members seen by the stub of serde_json::Map::insert: value of "alg" (first 5 bytes) and member count
+    pub jwk_alg: [u8; 5],
+    pub jwk_alg_len: usize,
+    pub jwk_members: usize,
 }
 pub static mut OSSL: OsslState = OsslState {
     magic: 0x0551_C0DE_ACED_0002,
@@ -66,6 +70,9 @@ pub static mut OSSL: OsslState = OsslState {
     ed_pub: [0; 57],
     b64_in_len: [0; 4],
     b64_calls: 0,
+    jwk_alg: [0; 5],
+    jwk_alg_len: 0,
+    jwk_members: 0,
 };
 pub fn st() -> &'static mut OsslState {
     unsafe { &mut *core::ptr::addr_of_mut!(OSSL) }
